@@ -10,7 +10,9 @@
                                  trace as (1, [old; new]).  Result: LReturn (0,0) nil = pass,
                                  LReturn (1,0) blocked, LReturn (2,ns) should wait ns, LContinue tt
                                  = retry.
-     throttling_New            = NewThrottlingChecker: (maxQueueingTimeNs, statIntervalNs).
+     throttling_New            = NewThrottlingChecker: (maxQueueingTimeNs, statIntervalNs, lastPassedTime).
+     flow_Slot_Check_step      = flow.Slot.Check: one iteration of its loop over the controllers
+                                 (the sleep for a should-wait result is action (1, [ns])).
 
    Layers: (1) Gen = a direct transcription with the int64 wrap-around [step_w], for all inputs,
    by case analysis only; (2) inside the no-wrap range the model is stated for (meta/C10.json:
@@ -61,18 +63,34 @@ Ltac bool_hyps :=
          | H : (_ =? _) = true |- _ => apply Z.eqb_eq in H
          | H : (_ =? _) = false |- _ => apply Z.eqb_neq in H
          end.
+(* destruct a comparison everywhere: in the goal and in the equations recorded so far *)
+Ltac dcmp c :=
+  let H := fresh "Hc" in
+  destruct c eqn:H;
+  repeat match goal with
+         | H' : context [c] |- _ => lazymatch H' with H => fail | _ => rewrite H in H'; cbv iota in H' end
+         end.
+(* x <= y and y <= x: the two are equal (a test written with < or with <= on a tie) *)
+Ltac derive_eqs :=
+  repeat match goal with
+         | H1 : ?a <= ?b, H2 : ?b <= ?a |- _ =>
+             let E := fresh "E" in assert (E : a = b) by lia; clear H1 H2; try rewrite E in *
+         end.
+(* innermost first: a comparison whose operands still contain a conditional is left for later *)
+Ltac no_if t := lazymatch t with context [if _ then _ else _] => fail | _ => idtac end.
 Ltac split_cmp :=
   rewrite ?Z.geb_leb, ?Z.gtb_ltb;
   repeat (match goal with
-          | |- context [PrimFloat.leb ?a ?b] => destruct (PrimFloat.leb a b) eqn:?
-          | |- context [PrimFloat.ltb ?a ?b] => destruct (PrimFloat.ltb a b) eqn:?
-          | |- context [PrimFloat.eqb ?a ?b] => destruct (PrimFloat.eqb a b) eqn:?
-          | |- context [Z.ltb ?a ?b] => destruct (Z.ltb a b) eqn:?
-          | |- context [Z.leb ?a ?b] => destruct (Z.leb a b) eqn:?
-          | |- context [Z.eqb ?a ?b] => destruct (Z.eqb a b) eqn:?
-          | |- context [if ?c then _ else _] => destruct c eqn:?
+          | |- context [PrimFloat.leb ?a ?b] => no_if a; no_if b; dcmp (PrimFloat.leb a b)
+          | |- context [PrimFloat.ltb ?a ?b] => no_if a; no_if b; dcmp (PrimFloat.ltb a b)
+          | |- context [PrimFloat.eqb ?a ?b] => no_if a; no_if b; dcmp (PrimFloat.eqb a b)
+          | |- context [Z.ltb ?a ?b] => no_if a; no_if b; dcmp (Z.ltb a b)
+          | |- context [Z.leb ?a ?b] => no_if a; no_if b; dcmp (Z.leb a b)
+          | |- context [Z.eqb ?a ?b] => no_if a; no_if b; dcmp (Z.eqb a b)
+          | |- context [if ?c then _ else _] => no_if c; dcmp c
           end; cbn [orb andb negb]);
-  try reflexivity; try discriminate; try (exfalso; bool_hyps; lia).
+  try reflexivity; try discriminate;
+  try (bool_hyps; derive_eqs; first [reflexivity | exfalso; lia | repeat f_equal; lia]).
 
 Lemma throttling_DoCheck_step_w c b now loaded cas_ok owner_nonnil :
   throttling_DoCheck_step b (maxq_ns c) (ival_ns c) cas_ok loaded now owner_nonnil (thr c)
@@ -212,6 +230,26 @@ Proof.
   rewrite ?(Z.mul_comm 1000000), ?(B timeout_ms Ht), ?(B stat_ms Hs), ?(B 1000 B1). split_cmp.
 Qed.
 
+(* ---- flow.Slot.Check: what the slot does with the checker's result (one iteration of its loop over
+   the resource's controllers): blocked -> returned at once; should-wait with a positive wait ->
+   util.Sleep(wait) is action (1, [ns]) and the next controller is checked; nil -> next controller.
+   On the result DoCheck returns for a model outcome this is the observation obs_of of
+   Model/Throttle.v: Block, or Pass w with the sleep requested exactly when w > 0. ---- *)
+Definition slot_on (r : Z * Z) : leaf_flow Z unit * list leaf_act :=
+  flow_Slot_Check_step (snd r) (fst r =? 0) (fst r) false.
+
+Theorem flow_Slot_Check_step_ok o :
+  slot_on (res_of_out o)
+  = match obs_of o with
+    | Block => (LReturn 1, [])
+    | Pass w => (LContinue tt, if 0 <? w then [(1, [LZ w])] else [])
+    end.
+Proof.
+  unfold slot_on, flow_Slot_Check_step, res_of_out, obs_of.
+  destruct o as [|w|]; cbn [fst snd]; try reflexivity.
+  destruct (w =? 0) eqn:E; cbn [fst snd]; split_cmp.
+Qed.
+
 (* non-vacuity of the range hypothesis: 10 tokens/s, second request 30 ms after the first *)
 Example no_wrap_nonvacuous :
   no_wrap (mk_cfg 10%float 500 1000) 1 1700000000030000000 1700000000000000000.
@@ -223,3 +261,4 @@ Print Assumptions throttling_DoCheck_seq.
 Print Assumptions throttling_DoCheck_conc_start.
 Print Assumptions throttling_DoCheck_conc_retry.
 Print Assumptions throttling_New_ok.
+Print Assumptions flow_Slot_Check_step_ok.
